@@ -107,6 +107,17 @@ func u16(rng *rand.Rand) int {
 	return rng.Intn(65536)
 }
 
+// tidv picks a transaction id: the edges of the 16-bit range and of its two bytes are over-represented
+func tidv(rng *rand.Rand) int {
+	switch rng.Intn(8) {
+	case 0:
+		return pick(rng, []int{0, 0, 1, 255, 256, 65534, 65535, 0xFF00, 0x00FF})
+	case 1:
+		return u16(rng)
+	}
+	return rng.Intn(65536)
+}
+
 func u8(rng *rand.Rand) int {
 	switch rng.Intn(4) {
 	case 0:
